@@ -31,9 +31,12 @@ CHECK = {
             "every load or environment pass after an accepted load, every environment pass after a refused (half-applied) load, then Validate, ToJSON, SaveJSON (file mode), "
             "reload by a fresh Identity, compared observation for observation with the Ident model; plus config.DisplayJSON on synthetic struct types "
             "(hidden string/int/map/slice/struct/pointer fields, omitempty, zero values, tags one level down in struct, pointer, slice and map elements), "
+            "config.SetIfNotDefault per Go type over boundary values (also types without an arm), config.ParseDurations over argument lists, and restapi's "
+            "libp2p identity (4 id x 5 key tokens x listen address on/off), "
             "then n seeded random cases (random field, random value of its type, 1/12 byte-mangled JSON); non-trivial = the loader "
             "accepted or refused a set value (unset/null accepted cases are trivial); distinct by case line",
     "trusted_base": ["go/ast pattern matcher harness/common/c15_schema.go (fail-closed: unmatched references become kind custom)",
+                     "statement recognisers harness/common/c15_util.go for SetIfNotDefault, applyIdentityJSON, Manager.LoadJSONFileAndEnv/ApplyEnvVars (exact shapes; anything else is '?', which the model cannot interpret)",
                      "statement-shape recognisers harness/common/c15_codec.go (regular expressions over the normalised source of whole statement windows; no match = custom) and c15_validate.go (expression language of Validate conjuncts; no match = opaque)",
                      "library codecs: NewMultiaddr/String, peer.Decode/Encode, hex and base64 decode/encode, crypto.UnmarshalPrivateKey/Bytes round-trip what they accept (like time.ParseDuration/String); integer casts uint <-> goleveldb.Compression/Strict preserve the value",
                      "reflection on the exported Config struct field named by the translator for eff/eff2",
@@ -79,7 +82,12 @@ META = {
             "history_roundtrip (after any operation sequence an accepted operation leaves a valid Identity whose saved form reloads to the same state), "
             "refused_load_not_inert (observation). config.DisplayJSON is modelled over leaves with tagged paths: display_hides_top, displayDeep_hides_tagged, "
             "display_eq_deep_iff (the code equals the deep walk exactly when no tag sits below the top level) and nested_hidden_leaks (refutation of the hide law for "
-            "arbitrary nesting); the real DisplayJSON is driven with nested secret-bearing values and must agree leaf by leaf.",
+            "arbitrary nesting); the real DisplayJSON is driven with nested secret-bearing values and must agree leaf by leaf. Semantic go/ast tables, regenerated "
+            "on every run and interpreted by the model: the arms of SetIfNotDefault's type switch (table_sind_covers: every row copied with it has an arm of its Go type that "
+            "assigns exactly the non-zero values; sind_arm_is_loadScalar, sind_no_arm_drops), the statement sequence of applyIdentityJSON (gen_ident_apply: its interpretation "
+            "equals the model's apply for all inputs), the call order of Manager.LoadJSONFileAndEnv and the reach of Manager.ApplyEnvVars (gen_file_env_order, "
+            "table_manager_env_reach); SetIfNotDefault and ParseDurations are also driven directly per Go type / argument list, and restapi's libp2p identity "
+            "(all-or-none, ID matches key: rest_accept_iff, rest_roundtrip) against the real rest.Config.",
     "note": "Trusted: Lean kernel (+propext, Classical.choice, Quot.sound), the go/ast translator's pattern matcher (fail-closed), the harness "
             "(reflection on Config fields, value classification), Go's time and encoding/json. Known findings on the unchanged tree: K11 "
             "(booleans cannot be set to false under SetIfNotDefault/mergo), K12 (explicit empty string/list replaced by the default). Found by this "
